@@ -17,6 +17,7 @@ BOM = b"\xef\xbb\xbf"
 #  Not findings (definitional; the spec follows the documented engine behaviour): blank lines are skipped (csv_core
 #  documents it, slt/csv/infer/empty_middle_line.slt pins it); an empty field in the first record fails its typed
 #  column and so marks a header (reader.rs module doc, slt/csv/infer/empty_header_names.slt).)
+K_MFBOM = "multi-file-bom-in-later-file"
 
 
 # ------------------------------------------------------------------ generators
@@ -488,7 +489,8 @@ def stage_sql(ctx, rng, gsql, gm):
                       "meta": {"batch": batch, "parts": parts}})
     # multi-file: a file without final terminator followed by another one in the same partition
     mf = []
-    for j, (a, b) in enumerate([(b"1,2\n3,4\n5,6", b"7,8\n9,10\n"), (b"a,b\n1,2\n3,4", b"a,b\n7,8\n9,10\n"), (b"1,2\n3,4\n", b"7,8\n9,10\n")]):
+    for j, (a, b) in enumerate([(b"1,2\n3,4\n5,6", b"7,8\n9,10\n"), (b"a,b\n1,2\n3,4", b"a,b\n7,8\n9,10\n"), (b"1,2\n3,4\n", b"7,8\n9,10\n"),
+                                (b"1,2\n3,4\n", BOM + b"7,8\n9,10\n"), (BOM + b"1,2\n3,4\n", b"7,8\n9,10\n")]):
         pa, pb = os.path.join(CSVDIR, "m%da.csv" % j), os.path.join(CSVDIR, "m%db.csv" % j)
         open(pa, "wb").write(a)
         open(pb, "wb").write(b)
@@ -590,9 +592,11 @@ def stage_sql(ctx, rng, gsql, gm):
         a, b = bytes.fromhex(c["a"]), bytes.fromhex(c["b"])
         res = (r.get("results") or [{}])[-1]
         hdr = a.startswith(b"a,b")
-        want = [["I%s" % x.decode() for x in l.split(b",")] for l in (a.split(b"\n") + b.split(b"\n")) if l and l != b"a,b"]
+        want = [["I%s" % x.decode() for x in l.split(b",")] for l in (strip_bom(a).split(b"\n") + strip_bom(b).split(b"\n")) if l and l != b"a,b"]
         ok = res.get("ok") and res.get("rows") == want
-        if not ok:
+        if not ok and b.startswith(BOM) and not res.get("ok") and "Failed to parse '\ufeff" in str(res.get("err")):
+            known.setdefault(K_MFBOM, {"files_hex": [c["a"], c["b"]], "stmts": c["stmts"], "got": res.get("err")})
+        elif not ok:
             viol.append({"kind": "multi-file-rows", "files_hex": [c["a"], c["b"]], "stmts": c["stmts"], "got": str(r)[:300], "want": want})
     for b, q, r in zip(bigs, bigq, real[len(cases) + len(mf):]):
         nq += 1
